@@ -808,6 +808,24 @@ func Build(spec Spec) *Built {
 			}
 		}
 	}
+	if spec.Excluded && len(infos) > 0 {
+		// a whole package below a directory whose NAME contains an exclude-paths token
+		ux := b.NewPkg("m/zz_skip_pkg/ux", "zz_skip_pkg/ux", "ux")
+		xf := b.NewFile(ux, "ux.go")
+		for i, inf := range infos {
+			if !exportedName(inf.t.Name) || i > 4 {
+				continue
+			}
+			var body []*Node
+			for _, tm := range tmpls {
+				if (tm.Name == "assign" || tm.Name == "lit" || tm.Name == "func-call" || tm.Name == "method-call" || tm.Name == "var") && (tm.Kind == "" || tm.Kind == inf.t.Kind) {
+					body = append(body, tm.Make(b, inf.t, inf.env)...)
+				}
+			}
+			n, _ := b.FuncNode(ux, b.d("inDir"), false, nil, xf, body)
+			xf.Decls = append(xf.Decls, n)
+		}
+	}
 	if spec.Transit && len(infos) > 0 {
 		// t0 hands out values of d-types; w0 imports only t0 (the annotated packages are indirect dependencies of w0)
 		t0 := b.NewPkg("m/t0", "t0", "t0")
